@@ -30,8 +30,8 @@ CHECK_DEADLOCK FALSE
 """
 
 UNIVERSES = {
-    "quick": [("lists", 2), ("nested", 1), ("objects", 2), ("strings", 1)],
-    "thorough": [("lists", 2), ("lists3", 3), ("nested", 1), ("objects", 2), ("strings", 2)],
+    "quick": [("lists", 2), ("zeros", 2), ("nested", 1), ("objects", 2), ("strings", 1)],
+    "thorough": [("lists", 2), ("lists3", 3), ("zeros", 3), ("nested", 1), ("objects", 2), ("strings", 2)],
 }
 
 C02_CLAUSES = ("Completes", "RoundTrip", "PyPatch", "PyPatchIsSpecPatch", "RepeatPatch", "DiffUnchangedByPatch", "EmptyOnlyIfSame")
